@@ -480,6 +480,7 @@ def _validate_and_resolve_unroll(*args,
     if unroll is None:
         return None
     assert isinstance(unroll, dict), "unroll must be a dict or None"
+    unroll = dict(unroll)  # integer values are resolved below; do not modify the dictionary provided by the caller
     for k, v in unroll.items():
         assert isinstance(v, (list, int)), "unroll values must be either list of SlicedLeg or integer"
         if isinstance(v, list):
